@@ -273,3 +273,189 @@ class ReceiverRig(MediaRigBase):
         except Exception:
             pass
         self.close_base()
+
+
+# ------------------------------------------------------------------------------------------------ sender -> receiver pair
+
+
+def make_track_class():
+    from aiortc.mediastreams import MediaStreamError, MediaStreamTrack
+
+    class ScriptedTrack(MediaStreamTrack):
+        """Yields pre-built av.Packet objects (already 'encoded' frames), one per frame interval of virtual time."""
+
+        kind = "video"
+
+        def __init__(self, frames, interval, rig):
+            super().__init__()
+            self.frames = frames
+            self.interval = interval
+            self.rig = rig
+            self.i = 0
+
+        async def recv(self):
+            import av
+            import fractions
+
+            if self.readyState != "live" or self.i >= len(self.frames):
+                self.stop()
+                raise MediaStreamError
+            await asyncio.sleep(self.interval)
+            data = self.frames[self.i]
+            pkt = av.Packet(data)
+            pkt.pts = self.i * 3000
+            pkt.time_base = fractions.Fraction(1, 90000)
+            self.rig.on_frame_sent(self.i, data)
+            self.i += 1
+            return pkt
+
+    return ScriptedTrack
+
+
+class PairRig(MediaRigBase):
+    """Real RTCRtpSender -> fault link -> real RTCRtpReceiver (video), RTCP on the reverse link, virtual time."""
+
+    def __init__(self, rng, frames, *, codec="VP8", rtx=True, seq_origin=None, ts_origin=None, spec_rtp=None, spec_rtcp=None,
+                 heal=1e9, interval=1 / 30, relay=False):
+        super().__init__(rng, relay=relay)
+        from aiortc.rtcrtpparameters import (RTCRtcpFeedback, RTCRtpCodecParameters, RTCRtpDecodingParameters,
+                                             RTCRtpEncodingParameters, RTCRtpHeaderExtensionParameters,
+                                             RTCRtpReceiveParameters, RTCRtpRtxParameters, RTCRtpSendParameters)
+        from aiortc.rtcrtpreceiver import RemoteStreamTrack, RTCRtpReceiver
+        from aiortc.rtcrtpsender import RTCRtpSender
+
+        rs = self.rs
+        self._saved += [(rs, "random_sequence_number", rs.random_sequence_number), (rs, "random32", rs.random32)]
+        seqs = iter([seq_origin if seq_origin is not None else rng.randrange(32768), rng.randrange(65536)])
+        r32 = iter([rng.getrandbits(32) | 1, rng.getrandbits(32) | 1])  # ssrc, rtx ssrc (constructor), then ts origin
+        rs.random_sequence_number = lambda: next(seqs, 0)
+        state = {"n": 0}
+
+        def random32():
+            state["n"] += 1
+            if state["n"] <= 2:
+                return next(r32)
+            return ts_origin if ts_origin is not None else rng.getrandbits(32)
+
+        rs.random32 = random32
+        self.A = MediaEndpoint(self, "A", "controlling")
+        self.B = MediaEndpoint(self, "B", "controlled")
+        self.heal_at = self.t0 + heal
+        ma = spec_rtp if hasattr(spec_rtp, "decide") else FaultModel(rng, self.heal_at, spec_rtp if spec_rtp is not None else {"latency": 0.02})
+        mb = spec_rtcp if hasattr(spec_rtcp, "decide") else FaultModel(rng, self.heal_at, spec_rtcp if spec_rtcp is not None else {"latency": 0.02})
+        self.link_ab = Link(self.loop, "A>B", ma, self.B.rxq.put_nowait, self._classify, self.t0)
+        self.link_ba = Link(self.loop, "B>A", mb, self.A.rxq.put_nowait, self._classify, self.t0)
+        self.A.link, self.B.link = self.link_ab, self.link_ba
+        self.wire = collections.Counter()
+        self.seen_media_seq = set()
+        self.dropped_media = []   # (seq, t)
+        self.rtx_sent = []        # original seq numbers carried by retransmissions seen on the wire
+        self.nacks = []           # (t, lost list, highest media seq sent so far)
+        self.plis = []            # times
+        self.highest_sent = None
+        self.sent_frames = {}
+        self.frames = frames
+        self.codec = codec
+        self.rtx = rtx
+        self.link_ab.taps.append(self._tap_ab)
+        self.link_ba.taps.append(self._tap_ba)
+        for ep in (self.A, self.B):
+            ep.pump_task = self.loop.create_task(ep.pump())
+        Track = make_track_class()
+        self.track = Track(frames, interval, self)
+        self.sender = RTCRtpSender(self.track, self.A.dtls)
+        self.receiver = RTCRtpReceiver("video", self.B.dtls)
+        self.receiver._track = RemoteStreamTrack(kind="video")
+        self.receiver._set_rtcp_ssrc(0x5EC)
+        fb = [RTCRtcpFeedback(type="nack"), RTCRtcpFeedback(type="nack", parameter="pli"), RTCRtcpFeedback(type="goog-remb")]
+        codecs = [RTCRtpCodecParameters(mimeType="video/" + codec, clockRate=90000, payloadType=96, rtcpFeedback=fb,
+                                        parameters={} if codec == "VP8" else {"packetization-mode": "1", "profile-level-id": "42e01f"})]
+        if rtx:
+            codecs.append(RTCRtpCodecParameters(mimeType="video/rtx", clockRate=90000, payloadType=97, parameters={"apt": 96}))
+        exts = [RTCRtpHeaderExtensionParameters(id=1, uri="urn:ietf:params:rtp-hdrext:sdes:mid"),
+                RTCRtpHeaderExtensionParameters(id=2, uri="http://www.webrtc.org/experiments/rtp-hdrext/abs-send-time")]
+        sp = RTCRtpSendParameters(codecs=codecs, headerExtensions=exts, muxId="0")
+        sp.rtcp.cname = "vt"
+        sp.rtcp.ssrc = self.sender._ssrc
+        rp = RTCRtpReceiveParameters(codecs=codecs, headerExtensions=exts, muxId="0",
+                                     encodings=[RTCRtpDecodingParameters(ssrc=self.sender._ssrc, payloadType=96,
+                                                                         rtx=RTCRtpRtxParameters(ssrc=self.sender._rtx_ssrc) if rtx else None)])
+        self.run(self.receiver.receive(rp))
+        self.run(self.sender.send(sp))
+
+    def on_frame_sent(self, i, data):
+        self.sent_frames[i] = self.now()
+
+    def _classify(self, data):
+        from aiortc.rtp import is_rtcp
+
+        if is_rtcp(data):
+            return ("rtcp",)
+        pt = data[1] & 0x7F
+        seq = int.from_bytes(data[2:4], "big")
+        if pt == 97:
+            return ("rtx", "retransmission")
+        if seq in self.seen_media_seq:
+            return ("media", "retransmission")
+        return ("media",)
+
+    def _tap_ab(self, ev, n, data, kind, delays):
+        if ev != "tx":
+            return
+        if "media" in kind or "rtx" in kind:
+            seq = int.from_bytes(data[2:4], "big")
+            if "rtx" in kind:
+                cc = data[0] & 0x0F
+                off = 12 + 4 * cc
+                if data[0] & 0x10:
+                    xlen = int.from_bytes(data[off + 2:off + 4], "big")
+                    off += 4 + 4 * xlen
+                self.rtx_sent.append((int.from_bytes(data[off:off + 2], "big"), self.now(), bool(delays)))
+                self.wire["rtx_packets"] += 1
+            elif seq in self.seen_media_seq:
+                self.rtx_sent.append((seq, self.now(), bool(delays)))
+                self.wire["verbatim_retransmissions"] += 1
+            else:
+                self.seen_media_seq.add(seq)
+                self.highest_sent = seq
+                self.wire["media_packets"] += 1
+                if not delays:
+                    self.dropped_media.append((seq, self.now()))
+                    self.wire["media_dropped"] += 1
+                elif len(delays) > 1:
+                    self.wire["media_duplicated"] += 1
+
+    def _tap_ba(self, ev, n, data, kind, delays):
+        from aiortc import rtp
+
+        if ev != "tx" or "rtcp" not in kind:
+            return
+        try:
+            pkts = rtp.RtcpPacket.parse(data)
+        except Exception:
+            return
+        for p in pkts:
+            if isinstance(p, rtp.RtcpRtpfbPacket) and p.fmt == rtp.RTCP_RTPFB_NACK:
+                self.nacks.append((self.now(), list(p.lost), self.highest_sent, bool(delays)))
+                self.wire["nacks"] += 1
+            elif isinstance(p, rtp.RtcpPsfbPacket) and p.fmt == rtp.RTCP_PSFB_PLI:
+                self.plis.append(self.now())
+                self.wire["plis"] += 1
+            elif isinstance(p, rtp.RtcpPsfbPacket) and p.fmt == rtp.RTCP_PSFB_APP:
+                self.wire["rembs"] += 1
+            elif isinstance(p, rtp.RtcpRrPacket):
+                self.wire["rrs"] += 1
+
+    def close(self):
+        try:
+            for ep in (self.A, self.B):
+                if ep.pump_task is not None:
+                    ep.pump_task.cancel()
+            self.link_ab.closed = self.link_ba.closed = True
+            try:
+                self.run(self.sender.stop())
+                self.run(self.receiver.stop())
+            except Exception:
+                pass
+        finally:
+            self.close_base()
